@@ -185,23 +185,23 @@ class UdpInverterProtocol(InverterProtocol, asyncio.DatagramProtocol):
             logger.debug("No pending request to report the error to.")
         self._close_transport()
 
-    async def send_request(self, command: ProtocolCommand) -> Future:
+    async def send_request(self, command: ProtocolCommand, retry: int = 0) -> Future:
         """Send message via transport"""
         await self._ensure_lock().acquire()
         try:
             await self._connect()
             response_future = asyncio.get_running_loop().create_future()
+            self._retry = retry
             self._send_request(command, response_future)
             await response_future
             return response_future
         except asyncio.CancelledError:
-            if self._retry < self.retries:
-                self._retry += 1
+            if retry < self.retries:
                 if self._lock and self._lock.locked():
                     self._lock.release()
                 if not self.keep_alive:
                     self._close_transport()
-                return await self.send_request(command)
+                return await self.send_request(command, retry + 1)
             return self._max_retries_reached()
         finally:
             if self._lock and self._lock.locked():
@@ -338,32 +338,31 @@ class TcpInverterProtocol(InverterProtocol, asyncio.Protocol):
             logger.debug("No pending request to report the error to.")
         self._close_transport()
 
-    async def send_request(self, command: ProtocolCommand) -> Future:
+    async def send_request(self, command: ProtocolCommand, retry: int = 0) -> Future:
         """Send message via transport"""
         await self._ensure_lock().acquire()
         try:
             await asyncio.wait_for(self._connect(), timeout=5)
             response_future = asyncio.get_running_loop().create_future()
+            self._retry = retry
             self._send_request(command, response_future)
             await response_future
             return response_future
         except asyncio.CancelledError:
-            if self._retry < self.retries:
+            if retry < self.retries:
                 if self._timer:
                     logger.debug("Connection broken error.")
-                self._retry += 1
                 if self._lock and self._lock.locked():
                     self._lock.release()
                 self._close_transport()
-                return await self.send_request(command)
+                return await self.send_request(command, retry + 1)
             return self._max_retries_reached()
         except (ConnectionRefusedError, TimeoutError, OSError, asyncio.TimeoutError):
-            if self._retry < self.retries:
+            if retry < self.retries:
                 logger.debug("Connection refused error.")
-                self._retry += 1
                 if self._lock and self._lock.locked():
                     self._lock.release()
-                return await self.send_request(command)
+                return await self.send_request(command, retry + 1)
             return self._max_retries_reached()
         finally:
             if self._lock and self._lock.locked():
